@@ -75,6 +75,12 @@ class ROCDFilter(Enum):
 class Interpolator:
     """Grid-based interpolator for performance model data."""
 
+    FL_TOLERANCE: ClassVar[float] = 1.0e-4
+    """Tolerance (in flight levels) for treating a state as lying on the first
+    or last tabulated flight level. The metres to flight level conversion is
+    not exact, so a tabulated level expressed in metres can come out
+    marginally outside the table."""
+
     def __init__(self, df: pd.DataFrame):
         # Requirements:
         #  - Regular FL, regular mass ⇒ rectlinear grid;
@@ -121,6 +127,14 @@ class Interpolator:
     def __call__(self, fl: float, mass: float) -> Performance:
         """Perform bilinear interpolation to get performance values at given
         flight level and aircraft mass."""
+
+        # A state within round-off of the first or last tabulated flight level
+        # is on that level (this is not extrapolation).
+        fl_min, fl_max = self.xs[0][0], self.xs[0][-1]
+        if fl_min - self.FL_TOLERANCE <= fl < fl_min:
+            fl = fl_min
+        elif fl_max < fl <= fl_max + self.FL_TOLERANCE:
+            fl = fl_max
 
         if self.n_masses > 1:
             x = (fl, mass)
